@@ -236,10 +236,20 @@ func (f *tsFlight) left(k int) {
 }
 
 func tsKeyIndex(name string) (int, bool) {
-	var k int
-	var c byte
-	if _, err := fmt.Sscanf(strings.ToLower(name), "%c%d.tsig.c12.", &c, &k); err != nil || (c != 'k' && c != 'u') {
+	name = strings.ToLower(name)
+	if len(name) < 2 || (name[0] != 'k' && name[0] != 'u') || !strings.HasSuffix(name, ".tsig.c12.") {
 		return 0, false
+	}
+	d := name[1 : len(name)-len(".tsig.c12.")]
+	if d == "" || len(d) > 6 {
+		return 0, false
+	}
+	k := 0
+	for _, c := range []byte(d) {
+		if c < '0' || c > '9' {
+			return 0, false
+		}
+		k = 10*k + int(c-'0')
 	}
 	return k, true
 }
@@ -315,12 +325,14 @@ func (p *tsProvider) Verify(msg []byte, t *dns.TSIG) error {
 }
 
 // tsComparable replaces parking records (whose generator function makes them
-// incomparable) by NULL records with the same header and data.
+// incomparable) by NULL records with the same header and the RDATA in hex.
 func tsComparable(m *dns.Msg) *dns.Msg {
 	c := *m
 	conv := func(rs []dns.RR) []dns.RR {
 		out := make([]dns.RR, len(rs))
 		for i, rr := range rs {
+			// the harness decodes while the type is not registered (RFC 3597 form), the
+			// server while it is
 			if p, ok := rr.(*dns.PrivateRR); ok {
 				d, _ := p.Data.(*tsParkRdata)
 				data := "?"
@@ -328,6 +340,8 @@ func tsComparable(m *dns.Msg) *dns.Msg {
 					data = hex.EncodeToString(d.b)
 				}
 				out[i] = &dns.NULL{Hdr: p.Hdr, Data: data}
+			} else if u, ok := rr.(*dns.RFC3597); ok && u.Hdr.Rrtype == tsParkType {
+				out[i] = &dns.NULL{Hdr: u.Hdr, Data: strings.ToLower(u.Rdata)}
 			} else {
 				out[i] = rr
 			}
@@ -387,10 +401,7 @@ func mkTsigReq(r *Rng, k int, kind tsKind, park int, limit int) *tsReq {
 			}
 			fudge := uint16(3000)
 			if kind == tkForwarded {
-				m.Id = uint16(k) ^ 0x8000 ^ uint16(1+r.Intn(0x7ffe))<<0&0xffff
-				if m.Id == uint16(k) {
-					m.Id ^= 0x4000
-				}
+				m.Id = uint16(k) + uint16(1+r.Intn(65534)) // the ID the original client used, never k
 			}
 			m.SetTsig(q.key, tsAlgs[r.Intn(len(tsAlgs))], fudge, now)
 			secret := q.secret
@@ -588,6 +599,15 @@ func runTsigPoolOne(r *Rng, n int, onep bool, udpSize int, provider bool) {
 	} else {
 		srv.TsigSecret = secrets
 	}
+	invalid := func(m []byte, err error) {
+		if len(m) >= 2 && int(binary.BigEndian.Uint16(m)) < n {
+			run.reach(int(binary.BigEndian.Uint16(m))) // never on the unchanged tree; keeps the serve loop going
+		}
+	}
+	srv.MsgInvalidFunc = invalid
+	// the parking type is registered only while the server runs: the generators above
+	// walk through the registered types
+	dns.PrivateHandle("C12PARK", tsParkType, func() dns.PrivateRdata { return new(tsParkRdata) })
 	tsHook.Store(run)
 	done := make(chan error, 1)
 	go func() { done <- srv.ActivateAndServe() }()
@@ -600,13 +620,16 @@ func runTsigPoolOne(r *Rng, n int, onep bool, udpSize int, provider bool) {
 	go func() { srv.Shutdown(); close(sd) }()
 	if !netfake.WaitChan(sd, 3*infraWait) {
 		stat["infra_timeout"]++
-		return // the hook stays set: goroutines of this run may still be parked
+		tsHook.Store(nil)
+		dns.PrivateHandleRemove(tsParkType)
+		return
 	}
 	<-done
 	tsHook.Store(nil)
-	if !ok || run.infra.Load() {
-		stat["infra_timeout"]++
-		return
+	dns.PrivateHandleRemove(tsParkType)
+	complete := ok && !run.infra.Load()
+	if !complete {
+		stat["infra_timeout"]++ // what the handlers saw stands whatever the timing; counts need the complete run
 	}
 	// the clients' side
 	replies := make([][][]byte, n)
@@ -615,6 +638,9 @@ func runTsigPoolOne(r *Rng, n int, onep bool, udpSize int, provider bool) {
 		replies[k] = append(replies[k], w.Data)
 	}
 	for k, q := range run.reqs {
+		if !complete {
+			break
+		}
 		desc := fmt.Sprintf("client %d (%s, parked in %s)", k, tsKindNames[q.kind], tsParkNames[q.park])
 		if handled[k] != 1 {
 			add(q, fmt.Sprintf("%s: its request reached a handler %d times", desc, handled[k]))
@@ -667,12 +693,6 @@ func runTsigPoolOne(r *Rng, n int, onep bool, udpSize int, provider bool) {
 func runTsigPool(r0 *Rng, tier string) {
 	// a private generator: the histories of the other classes stay what they were
 	r := &Rng{S: r0.S ^ 0x7516c12a5eed}
-	dns.PrivateHandle("C12PARK", tsParkType, func() dns.PrivateRdata { return new(tsParkRdata) })
-	defer func() {
-		if tsHook.Load() == nil { // else a run was abandoned with goroutines still parked in the callback
-			dns.PrivateHandleRemove(tsParkType)
-		}
-	}()
 	k := 1
 	if tier == "thorough" {
 		k = 8
@@ -682,14 +702,8 @@ func runTsigPool(r0 *Rng, tier string) {
 		for _, provider := range []bool{false, true} {
 			// one P: the buffer a request hands back is the one the next read gets
 			runTsigPoolOne(r, 120, true, sizes[r.Intn(3)], provider)
-			if tsHook.Load() != nil {
-				return
-			}
 		}
 		// all Ps
 		runTsigPoolOne(r, 200, false, sizes[r.Intn(3)], i%2 == 1)
-		if tsHook.Load() != nil {
-			return
-		}
 	}
 }
